@@ -619,6 +619,21 @@ func init() {
 		i.call(fr, token.NoPos, a[0], nil)
 		return false
 	}
+	ext[symPkg+"ByteIn"] = func(fr *frame, a []value) value {
+		i := fr.i
+		set := i.cstr(a[1], "sym.ByteIn set")
+		switch b := a[0].(type) {
+		case int64:
+			return strings.IndexByte(set, byte(b)) >= 0
+		case *Term:
+			acc := i.ts.ff
+			for k := 0; k < len(set); k++ {
+				acc = i.ts.Or(acc, i.ts.Eq(b, i.ts.Const(uint64(set[k]), 8)))
+			}
+			return fromTerm(acc, false)
+		}
+		panic("sym.ByteIn")
+	}
 	ext[symPkg+"PoolAllChoices"] = func(fr *frame, a []value) value {
 		fr.i.poolChoice = a[0].(bool)
 		return nil
@@ -719,8 +734,24 @@ func init() {
 				}
 			}
 		}
-		ascii(xb)
-		ascii(yb)
+		// a concrete ASCII operand without k/s (the only ASCII letters with non-ASCII case-fold partners, U+212A
+		// and U+017F) can only equal-fold byte for byte: non-ASCII bytes on the other side simply differ
+		plainASCII := func(v value) bool {
+			c, ok := v.(string)
+			if !ok {
+				return false
+			}
+			for k := 0; k < len(c); k++ {
+				if c[k] >= 0x80 || c[k] == 'k' || c[k] == 'K' || c[k] == 's' || c[k] == 'S' {
+					return false
+				}
+			}
+			return true
+		}
+		if !plainASCII(a[0]) && !plainASCII(a[1]) {
+			ascii(xb)
+			ascii(yb)
+		}
 		if len(xb) != len(yb) {
 			return false
 		}
@@ -737,6 +768,42 @@ func init() {
 			}
 		}
 		return fromTerm(acc, false)
+	}
+	ext["strings.TrimSpace"] = func(fr *frame, a []value) value {
+		i := fr.i
+		if s, ok := a[0].(string); ok {
+			return strings.TrimSpace(s)
+		}
+		// symbolic: ASCII white space is trimmed; a non-ASCII byte at either end would take the Unicode path
+		// (U+0085, U+00A0): those inputs are outside the model (path pruned, stated)
+		bs := strBytes(a[0])
+		isSpace := func(v value) bool {
+			switch b := v.(type) {
+			case int64:
+				if b >= 0x80 {
+					panic(pathEnd{kind: "assume", msg: "strings.TrimSpace: non-ASCII byte at the end of a symbolic string"})
+				}
+				return b == ' ' || b == '\t' || b == '\n' || b == '\v' || b == '\f' || b == '\r'
+			case *Term:
+				if i.decide(i.ts.Cmp(OpBVUle, i.ts.Const(0x80, 8), b)) {
+					panic(pathEnd{kind: "assume", msg: "strings.TrimSpace: non-ASCII byte at the end of a symbolic string"})
+				}
+				sp := i.ts.Eq(b, i.ts.Const(' ', 8))
+				for _, c := range []byte{'\t', '\n', '\v', '\f', '\r'} {
+					sp = i.ts.Or(sp, i.ts.Eq(b, i.ts.Const(uint64(c), 8)))
+				}
+				return i.decide(sp)
+			}
+			return false
+		}
+		lo, hi := 0, len(bs)
+		for lo < hi && isSpace(bs[lo]) {
+			lo++
+		}
+		for hi > lo && isSpace(bs[hi-1]) {
+			hi--
+		}
+		return mkStr(bs[lo:hi:hi])
 	}
 	ext["strings.Repeat"] = func(fr *frame, a []value) value {
 		return strings.Repeat(fr.i.cstr(a[0], "strings.Repeat"), fr.i.cint(a[1], "count"))
